@@ -23,7 +23,7 @@ RULE = ("BFS over histories of {scheduler tick, pause(i), resume(i), stop(i), wh
         "is part of the tick event, so every iterator script up to the depth is covered. After every transition the real "
         "objects are compared with a per-task reference (runnable / user-paused n times / waiting / finished(reason)). "
         "non-trivial = distinct canonical states in which some task is paused, waiting, finished or the cooperator is stopped")
-BOUNDS = {"quick": "depth 6; k in {1,2}; 1..3 initial tasks (each cooperate or coiterate), <= 3 tasks in total",
+BOUNDS = {"quick": "depth 6 for k=1 (11 behaviours per next()), depth 5 for k=2 (6 behaviours); 1..3 initial tasks (each cooperate or coiterate), <= 3 tasks in total",
           "thorough": "to closure: every reachable canonical state of a Cooperator with <= 3 tasks (cooperate or coiterate, added at "
                       "any time), <= 2 nested harness pauses and <= 2 whenDone() per task, for k in {1,2,3} (9 / 6 / 4 behaviours "
                       "per next()); the run reports exhaustive=False if any shard stops at the depth cap instead"}
@@ -43,7 +43,7 @@ ASSUMPTIONS = [
     "_pauseCount / _completionState class), order of Cooperator._tasks, remaining part of Cooperator._metarator, pending "
     "scheduler calls, starvation counters; private attributes are read for canonicalisation only",
 ]
-MIN = {"quick": {"states": 150000, "nontrivial": 145000, "outcomes": 7},
+MIN = {"quick": {"states": 233000, "nontrivial": 229000, "outcomes": 7},
        "thorough": {"states": 775000, "nontrivial": 770000, "outcomes": 7, "shards_searched_to_closure": 42}}
 
 BEH6 = ("V", "D", "S", "R", "Ds", "Df")
@@ -55,7 +55,7 @@ BEH9 = BEH6 + ("P", "X", "XS")     # the iterator pauses / stops its own task fr
 BEH11 = BEH9 + ("Dc", "Dp")
 BEH4 = ("V", "D", "S", "R")
 CLOSURE = 60      # deeper than the deepest reachable canonical state (18 measured): the search runs until no new state appears
-TIERS = {"quick": [(1, 6, BEH11), (2, 6, BEH6)],
+TIERS = {"quick": [(1, 6, BEH11), (2, 5, BEH6)],
          "thorough": [(1, CLOSURE, BEH11), (2, CLOSURE, BEH8), (3, CLOSURE, BEH4)]}
 MAXTASKS = 3
 REASON_EXC = {"done": "TaskDone", "failed": "TaskFailed", "stopped": "TaskStopped", "schedstopped": "SchedulerStopped"}
